@@ -36,7 +36,8 @@ unsigned vf_out_cnt;
 static uint64_t absorb(uint64_t acc, const void *data, size_t len)
 {
   const unsigned char *p = data;
-  /* whole chunks, then the tail (also for len == 0: the call itself is recorded) */
+  /* a zero-length update does not change a hash state */
+  if (len == 0) return acc;
   size_t off = 0;
   do {
     size_t n = len - off < UF_CHUNK ? len - off : UF_CHUNK;
